@@ -42,7 +42,7 @@ def run_one(mid, checks, tier):
             env = dict(os.environ, NSS_REPO=wt)
             r = sh("%s/check %s --tier %s" % (HERE, c, tier), env=env, cwd=HERE)
             out = r.stdout + r.stderr
-            vio = re.findall(r"^VIOLATION property=\S+ replay=\S+(.*)$\n\s+obligation (\S+):\s", out, re.M)
+            vio = re.findall(r"^VIOLATION property=\S+ replay=\S+(.*)$\n\s+obligation (.+?): ", out, re.M)
             und = re.findall(r"^UNDECIDED property=\S+ obligation=(\S+)", out, re.M)
             row["checks"][c] = {"exit": r.returncode, "violations": [v[1] + (" [no-failing-input-found]" if "no-failing" in v[0] else "") for v in vio][:12], "undecided": und[:12],
                                 "selfcheck": re.findall(r"^SELF-CHECK FAILED.*$", out, re.M)[:2], "crash": out[-400:] if r.returncode not in (0, 1) else None}
